@@ -168,6 +168,18 @@ impl<'a> Outbound<'a> {
         MAX_RETAINED.min(MAX_PENDING_RELEASE) as u16
     }
 
+    /// Number of QoS 1/2 publishes the broker still counts against its Receive Maximum: retained
+    /// `PUBLISH` packets plus exchanges waiting for `PUBCOMP`.
+    pub(super) fn inflight_publishes(&self) -> u16 {
+        let mut count = self.pending_release.len();
+        for entry in &self.retained {
+            if self.buf[entry.offset] >> 4 == 3 {
+                count += 1;
+            }
+        }
+        count as u16
+    }
+
     fn used_after_compact(&self) -> usize {
         self.retained.iter().map(|entry| entry.len).sum()
     }
